@@ -27,13 +27,14 @@ pub struct Assoc {
     held: Vec<Arc<DataChannel>>,
     _out_rx: tokio::sync::mpsc::UnboundedReceiver<Bytes>,
     _in_tx: tokio::sync::mpsc::UnboundedSender<Bytes>,
+    alloc_fail: Option<String>,
+    alloc_max_x100: u64,
 }
 
 fn fold(b: &[u8]) -> u64 { b.iter().fold(7u64, |a, x| (a * 31 + *x as u64) % 4294967296) }
 
 impl Assoc {
-    /// `closed0`: leave the association in the state the dropped stock runner puts it in (Closed) instead of New
-    pub fn new(is_client: bool, closed0: bool, seed_tsn: u32) -> Self {
+    pub fn new(is_client: bool, seed_tsn: u32) -> Self {
         let rt = tokio::runtime::Builder::new_current_thread().enable_all().build().unwrap();
         let port = NEXT_PORT.fetch_add(1, Ordering::SeqCst);
         hk::clear(port);
@@ -49,10 +50,9 @@ impl Assoc {
             let (dc_tx, dc_rx) = tokio::sync::mpsc::unbounded_channel::<Arc<DataChannel>>();
             let (sctp, _run) = SctpTransport::new_verif_link(dtls, in_rx, out_tx, Arc::new(parking_lot::Mutex::new(Vec::new())), port, 5000, Some(dc_tx), is_client,
                 &rustrtc::RtcConfiguration::default());
-            if !closed0 { sctp.verif_set_state_new(); }
             (sctp, dc_rx, out_rx, in_tx)
         });
-        let mut a = Assoc { rt, sctp, port, chan_rx, held: vec![], _out_rx: out_rx, _in_tx: in_tx };
+        let mut a = Assoc { rt, sctp, port, chan_rx, held: vec![], _out_rx: out_rx, _in_tx: in_tx, alloc_fail: None, alloc_max_x100: 0 };
         if is_client { let s = a.sctp.clone(); let _ = a.rt.block_on(async move { s.verif_send_init().await }); let _ = hk::trace_take(port); a.drain_out(); }
         a
     }
@@ -63,7 +63,13 @@ impl Assoc {
     pub fn feed(&mut self, pkt: &[u8]) -> (String, Vec<Vec<u8>>) {
         let s = self.sctp.clone();
         let p = Bytes::copy_from_slice(pkt);
+        let a0 = super::alloc_read();
         let r = self.rt.block_on(async move { s.verif_handle_packet(p).await });
+        // allocation traffic of this one packet: ≤ 2·(64·len + 32 KiB) + 512 (amortised growth of the channel list; an INIT costs an INIT-ACK with cookie and HMAC, a DCEP OPEN a ≈ 2.6 KB channel + ACK)
+        let used = super::alloc_read().saturating_sub(a0);
+        let lim = 2 * (64 * pkt.len() as u64 + 32_768) + 512;
+        self.alloc_max_x100 = self.alloc_max_x100.max(used * 100 / (64 * pkt.len() as u64 + 32_768));
+        if used > lim && self.alloc_fail.is_none() { self.alloc_fail = Some(format!("{used} bytes allocated while handling a packet of {} bytes (limit {lim}): {}", pkt.len(), hex(pkt))); }
         self.drain_out();
         let mut ev: Vec<String> = vec![];
         let mut cookies = vec![];
@@ -148,13 +154,18 @@ fn pick_tsn(rng: &mut Rng, cum: u32) -> u32 {
     }
 }
 
+/// stream sequence numbers: small values (in order / small gaps) and the 16-bit boundaries
+fn pick_ssn(rng: &mut Rng) -> u16 {
+    match rng.below(8) { 0..=4 => rng.below(5) as u16, 5 => *rng.pick(&[0x7FFFu16, 0x8000, 0xFFFE, 0xFFFF]), 6 => 0xFFFF, _ => rng.next() as u16 }
+}
+
 fn gen_data_chunk(rng: &mut Rng, out: &mut Vec<u8>, tsn: u32) {
     let sid = rng.below(4) as u16;
     let (ppid, body) = match rng.below(6) {
         0 | 1 => (50u32, dcep_open(rng)), 2 => (50, if rng.chance(1, 2) { vec![2] } else { vec![] }), 3 => (50, vec![*rng.pick(&[0u8, 1, 4, 0xFF])]),
         _ => { let n = rng.below(24) as usize; (*rng.pick(&[51u32, 53, 0, 56]), rng.bytes(n)) }
     };
-    let mut v = data_value(tsn, sid, rng.below(3) as u16, ppid, &body);
+    let mut v = data_value(tsn, sid, pick_ssn(rng), ppid, &body);
     if rng.chance(1, 12) { let n = v.len(); v.truncate(rng.below(n as u64 + 1) as usize); }       // framed truncation (value < 12 bytes included)
     chunk(out, 0, rng.below(8) as u8, &v);
 }
@@ -183,7 +194,12 @@ fn gen_packet(rng: &mut Rng, cum: u32, cookies: &[Vec<u8>], req_sn: &mut u32, pe
                 if rng.chance(1, 6) { let n = v.len(); v.truncate(rng.below(n as u64 + 1) as usize); }
                 chunk(&mut p, 3, 0, &v); }
             13 | 14 => { let new = match rng.below(5) { 0 => cum, 1 => cum.wrapping_sub(1), 2 => cum.wrapping_add(0x8000_0000), _ => cum.wrapping_add(rng.range(1, 4) as u32) };
-                let mut v = new.to_be_bytes().to_vec(); for _ in 0..rng.below(3) { v.extend_from_slice(&(rng.below(4) as u16).to_be_bytes()); v.extend_from_slice(&(rng.below(5) as u16).to_be_bytes()); }
+                let mut v = new.to_be_bytes().to_vec();
+                if rng.chance(1, 3) {
+                    // one stream walked up to the 16-bit boundary in serial-number steps (each step < 2^15)
+                    let sid = rng.below(4) as u16;
+                    for ssn in *rng.pick(&[&[0x7000u16, 0xE000, 0xFFFF][..], &[0x7FFF, 0xFFFE, 0xFFFF, 0], &[0x4000, 0x8000, 0xC000, 0xFFFF, 0x3FFF], &[0xFFFF]]) { v.extend_from_slice(&sid.to_be_bytes()); v.extend_from_slice(&ssn.to_be_bytes()); }
+                } else { for _ in 0..rng.below(3) { v.extend_from_slice(&(rng.below(4) as u16).to_be_bytes()); v.extend_from_slice(&pick_ssn(rng).to_be_bytes()); } }
                 if rng.chance(1, 5) { v.push(9); } if rng.chance(1, 8) { v.truncate(rng.below(4) as usize); }
                 chunk(&mut p, 192, 0, &v); }
             15 | 16 => { let mut v = vec![];
@@ -214,23 +230,23 @@ fn gen_packet(rng: &mut Rng, cum: u32, cookies: &[Vec<u8>], req_sn: &mut u32, pe
 pub struct Step { pub crc_ok: bool, pub bytes: Vec<u8>, pub issued: Vec<Vec<u8>> }
 fn crc_ok(p: &[u8]) -> bool { p.len() >= 12 && { let mut q = p.to_vec(); let w = [q[8], q[9], q[10], q[11]]; q[8..12].copy_from_slice(&[0; 4]); crc32c::crc32c(&q).to_le_bytes() == w } }
 
-fn case_text(is_client: bool, closed0: bool, seed_tsn: u32, steps: &[Step]) -> String {
-    format!("{} {} {}", is_client as u8 + 2 * closed0 as u8, seed_tsn, steps.iter().map(|s| format!("{}:{}:{}", s.crc_ok as u8, hex(&s.bytes),
+fn case_text(is_client: bool, seed_tsn: u32, steps: &[Step]) -> String {
+    format!("{} {} {}", is_client as u8, seed_tsn, steps.iter().map(|s| format!("{}:{}:{}", s.crc_ok as u8, hex(&s.bytes),
         if s.issued.is_empty() { "-".to_string() } else { s.issued.iter().map(|c| hex(c)).collect::<Vec<_>>().join("+") })).collect::<Vec<_>>().join(" "))
 }
 
 /// run one generated session; `script`: None = generate with `rng`, Some = replay these packets
-pub fn run_session(run: &mut Run, rng: &mut Rng, is_client: bool, closed0: bool, replay: Option<(u32, Vec<Vec<u8>>)>, nt: bool) {
+pub fn run_session(run: &mut Run, rng: &mut Rng, is_client: bool, replay: Option<(u32, Vec<Vec<u8>>)>, nt: bool) {
     let seed_tsn = replay.as_ref().map(|r| r.0).unwrap_or_else(|| { let r = rng.next() as u32; *rng.pick(&[1u32, 0, 0xFFFF_FFFF, 0x8000_0000, 0x7FFF_FFFF, r]) });
     let mut steps: Vec<Step> = vec![];
     let mut outs: Vec<String> = vec![];
     let mut panicked: Option<String> = None;
-    let total_len;
+    let total_len; let alloc_fail; let alloc_max;
     {
-        let mut a = Assoc::new(is_client, closed0, seed_tsn);
+        let mut a = Assoc::new(is_client, seed_tsn);
         let mut feed = |a: &mut Assoc, p: Vec<u8>, steps: &mut Vec<Step>, outs: &mut Vec<String>| -> Vec<Vec<u8>> {
             if panicked.is_some() { return vec![]; }
-            let r = { let mut ar = std::panic::AssertUnwindSafe(&mut *a); let pr = p.clone(); crate::catch(move || ar.feed(&pr)) };
+            let r = { let mut ar = std::panic::AssertUnwindSafe(&mut *a); let pr = p.clone(); super::catch_ack(move || ar.feed(&pr)) };
             match r {
                 Ok((d, issued)) => { steps.push(Step { crc_ok: crc_ok(&p), bytes: p, issued: issued.clone() }); outs.push(d); issued }
                 Err(msg) => { steps.push(Step { crc_ok: crc_ok(&p), bytes: p, issued: vec![] }); panicked = Some(msg); vec![] }
@@ -270,11 +286,14 @@ pub fn run_session(run: &mut Run, rng: &mut Rng, is_client: bool, closed0: bool,
                 let cum = a.cum(); let p = gen_packet(rng, cum, &cookies, &mut req_sn, peer_tag); feed(&mut a, p, &mut steps, &mut outs); }
         }
         total_len = steps.iter().map(|s| s.bytes.len() as u64).sum::<u64>();
+        alloc_fail = a.alloc_fail.take(); alloc_max = a.alloc_max_x100;
     }
-    let text = case_text(is_client, closed0, seed_tsn, &steps);
+    let text = case_text(is_client, seed_tsn, &steps);
     if let Some(msg) = &panicked {
         run.fail(&format!("panic:SctpInner::handle_packet(history):{}", super::panic_site(msg)), &format!("sctpassoc {text}"), msg);
     }
+    if let Some(d) = alloc_fail { run.fail("alloc:SctpInner::handle_packet(history)", &format!("sctpassoc {text}"), &d); }
+    { let e = run.dist.entry("alloc_max_ratio_x100:sctpassoc".into()).or_insert(0); if alloc_max > *e { *e = alloc_max; } }
     let out = if panicked.is_some() { "panic".to_string() } else { format!("ok {}", outs.join(" ")) };
     // the session already ran (inputs depend on the association's own state); `exec` records it and applies the
     // process-wide panic / time oracles to the recorded run
@@ -286,11 +305,12 @@ pub fn run_session(run: &mut Run, rng: &mut Rng, is_client: bool, closed0: bool,
 /// kind 0: DATA with a TSN gap that is never filled (`received_queue`), `size`-byte payloads; 1: in-order first/middle fragments of a
 /// message that never ends (`reassembly_buffer`); 2: DCEP OPEN on a new stream each time (`data_channels`, the channels are kept
 /// alive as the PeerConnection does); 3: ordered messages with SSN ahead of the expected one (`InboundStream.pending`);
-/// 4: a fragmented DCEP message that never ends (`dcep_reassembly`).
+/// 4: a fragmented DCEP message that never ends (`dcep_reassembly`); 5: 20·count complete in-order messages on one ordered channel
+/// (the stream sequence number wraps; nothing may be retained).
 /// Oracle: retained ≤ 16·bytes received + 64 KiB, and every packet handled within the per-call deadline.
 pub fn run_flood(run: &mut Run, kind: u8, count: u32, size: usize) {
     let case = format!("sctpflood {kind} {count} {size}");
-    let mut a = Assoc::new(false, false, 1);
+    let mut a = Assoc::new(false, 1);
     let peer_tag = 0x0A0B_0C0Du32;
     let mut p = header(0); chunk(&mut p, 1, 0, &init_value(peer_tag, 1 << 20, 100)); crc_fix(&mut p);
     let (_, cookies) = a.feed(&p);
@@ -303,7 +323,7 @@ pub fn run_flood(run: &mut Run, kind: u8, count: u32, size: usize) {
     let body = vec![0x55u8; size];
     let panics0 = super::panic_count();
     super::alloc_reset();
-    let r = { let mut ar = std::panic::AssertUnwindSafe(&mut a); let body = body.clone(); crate::catch(move || {
+    let r = { let mut ar = std::panic::AssertUnwindSafe(&mut a); let body = body.clone(); super::catch_ack(move || {
         let mut bytes = 0u64; let mut slow = std::time::Duration::ZERO;
         for k in 0..count {
             let mut p = header(0x1122_3344);
@@ -312,6 +332,8 @@ pub fn run_flood(run: &mut Run, kind: u8, count: u32, size: usize) {
                 1 => chunk(&mut p, 0, if k == 0 { 2 } else { 0 }, &data_value(102 + k, 0, 0, 53, &body)),
                 2 => { let mut open = vec![3u8, 0, 0, 0, 0, 0, 0, 0, 0, 1, 0, 0]; open.push(b'l'); chunk(&mut p, 0, 3, &data_value(102 + k, ((k + 2) % 65536) as u16, 0, 50, &open)) }
                 4 => chunk(&mut p, 0, if k == 0 { 6 } else { 4 }, &data_value(102 + k, 0, 0, 50, &body)),
+                // 20 complete ordered messages per packet, SSNs in order from 1 (the OPEN used 0): the 16-bit SSN wraps after 65 535
+                5 => for j in 0..20u32 { let i = k * 20 + j; chunk(&mut p, 0, 3, &data_value(102 + i, 0, (i + 1) as u16, 53, &body)); },
                 _ => chunk(&mut p, 0, 3, &data_value(102 + k, 1, (k + 1) as u16, 53, &body)),
             }
             crc_fix(&mut p);
@@ -333,7 +355,7 @@ pub fn run_flood(run: &mut Run, kind: u8, count: u32, size: usize) {
     run.count_n(&format!("sctpflood:queue_len:{kind}:{size}"), snap.received_queue.len() as u64);
     run.count(&format!("sctpflood:connected:{connected}"));
     if retained > 16 * bytes_in + 65536 {
-        run.fail(&format!("retain:SctpInner::handle_packet:{}", ["tsn-gap", "endless-fragments", "dcep-open-per-stream", "ssn-gap", "endless-dcep-fragments"][if kind == 4 { 4 } else { kind.min(3) as usize }]), &case,
+        run.fail(&format!("retain:SctpInner::handle_packet:{}", ["tsn-gap", "endless-fragments", "dcep-open-per-stream", "ssn-gap", "endless-dcep-fragments", "in-order-messages"][if kind >= 4 { kind.min(5) as usize } else { kind.min(3) as usize }]), &case,
             &format!("{retained} bytes retained after {count} packets ({bytes_in} bytes received)"));
     }
     if slowest > std::time::Duration::from_secs(2) { run.fail("hang:SctpInner::handle_packet(flood)", &case, &format!("slowest packet took {slowest:?}")); }
@@ -343,9 +365,16 @@ fn r_is_ok(fails: &[crate::OracleFail], case: &str) -> bool { !fails.iter().any(
 
 pub fn special(run: &mut Run, rng: &mut Rng, thorough: bool) {
     let k = if thorough { 30_000 } else { 3_000 };
-    for (kind, size) in [(0u8, 1usize), (0, 1100), (1, 1), (1, 1100), (2, 0), (3, 1), (3, 1100), (4, 1), (4, 1100)] { run_flood(run, kind, k, size); }
+    for (kind, size) in [(0u8, 1usize), (0, 1100), (1, 1), (1, 1100), (3, 1), (3, 1100), (4, 1), (4, 1100)] { run_flood(run, kind, k, size); }
+    run_flood(run, 2, 20_000, 0);                          // long enough that the constant cap on channels passes the linear bound while per-OPEN growth would not (each ordered OPEN on a new stream also leaves an `InboundStream` ≈ 470 B, ≤ 65 536 of them)
+    // compared: 1030 DCEP OPENs on distinct streams in one session — the model and the code must refuse the same ones
+    {
+        let pk: Vec<Vec<u8>> = (0..1030u32).map(|k| { let mut p = header(0); chunk(&mut p, 0, 7, &data_value(1 + k, k as u16, 0, 50, &[3, 0, 0, 0, 0, 0, 0, 0, 0, 1, 0, 0, b'l'])); crc_fix(&mut p); p }).collect();
+        run_session(run, rng, false, Some((1, pk)), true);
+    }
+    run_flood(run, 5, 3_400, 1);                           // 68 000 in-order messages on one ordered channel: SSN wrap-around
     let n = if thorough { 30_000 } else { 1_500 };
-    for i in 0..n { run_session(run, rng, i % 5 == 4, false, None, true); }   // (`new_verif_link` now always hands out a New association)
+    for i in 0..n { run_session(run, rng, i % 5 == 4, None, true); }
 }
 
 pub fn replay_special(run: &mut Run, stream: &str, a: &[&str]) -> bool {
@@ -353,6 +382,6 @@ pub fn replay_special(run: &mut Run, stream: &str, a: &[&str]) -> bool {
     if stream != "sctpassoc" || a.len() < 2 { return false; }
     let pk: Vec<Vec<u8>> = a[2..].iter().filter_map(|t| t.split(':').nth(1).map(unhex)).collect();
     let mut rng = Rng::new(1);
-    run_session(run, &mut rng, a[0] == "1" || a[0] == "3", a[0] == "2" || a[0] == "3", Some((a[1].parse().unwrap_or(1), pk)), true);
+    run_session(run, &mut rng, a[0] == "1", Some((a[1].parse().unwrap_or(1), pk)), true);
     true
 }
